@@ -573,6 +573,8 @@ func c08Gen(rng *rand.Rand, tier string, w *bufio.Writer) {
 	fixed("k1", 0, 0, 0, "{a:i1}", mk("a", I(1)))
 	fixed("k2", 2, 0, 0, "{a:i1}", mk("a", I(1)))
 	fmt.Fprintln(w, "q created asc 0 0 - - 0 &(a~eq~i64:1~)")
+	// corpus 4b: a time window on a key-ordered query (the scan route ignores it, applyTimeRange does not)
+	fmt.Fprintln(w, "q key asc 0 0 1 - 0 &(a~eq~i64:1~)")
 	// corpus 5: agreement on the sound fragment + mutation after the bucket was built
 	fmt.Fprintln(w, "case 5")
 	fixed("k1", 1, 0, 0, "{a:i1,b:'a'}", mk("a", I(1), "b", S("a")))
@@ -642,7 +644,7 @@ func c08Gen(rng *rand.Rand, tier string, w *bufio.Writer) {
 					from, limit = rng.Intn(3), rng.Intn(4)
 				}
 				ft, tt := "-", "-"
-				if idx != "key" && rng.Intn(3) == 0 {
+				if (idx != "key" || rng.Intn(6) == 0) && rng.Intn(3) == 0 {
 					ft = strconv.Itoa(rng.Intn(5))
 					if rng.Intn(2) == 0 {
 						tt = strconv.Itoa(2 + rng.Intn(8))
